@@ -1,9 +1,10 @@
 #!/bin/sh
-# runs every claimed check's quick (or given) tier on /repo, sequentially; prints one line per property
+# runall.sh [tier] ["ids"]: runs every claimed check's quick (or given) tier on /repo, sequentially; prints one line per property
 cd "$(dirname "$0")/.."
 tier=${1:-quick}
 mkdir -p .work
-for id in $(python3 -c "import json; print(' '.join(c['property_id'] for c in json.load(open('MANIFEST.json'))['checks']))"); do
+ids=${2:-$(python3 -c "import json; print(' '.join(c['property_id'] for c in json.load(open('MANIFEST.json'))['checks']))")}
+for id in $ids; do
   t0=$(date +%s)
   timeout 7200 ./check $id $tier > .work/runall-$id.out 2>&1
   rc=$?
